@@ -249,7 +249,7 @@ def classify(rec):
     if rec["target"] in EXCLUDING and rec["verdict"] == "names":
         # columns that come back on a dialect WITH column exclusion.  Each must be explained:
         # F43: it was excluded by an exclusion that is not the last one (only the last exclusion survives);
-        # F46: `sort | take | more`: a column the back end carries through the take's sub-query for its own use -- a plain sort key
+        # F49: `sort | take | more`: a column the back end carries through the take's sub-query for its own use -- a plain sort key
         #      the user excluded afterwards, or the `_expr_N` helper of a computed sort key -- is shown by the closing `SELECT *`
         #      when another transform follows (the pass-through sub-query forgets what the star must hide)
         steps = rec["program"].steps
@@ -277,7 +277,7 @@ def classify(rec):
         is_helper = lambda c: helper_ok and re.fullmatch(r"_expr_\d+", c) and re.search(r" AS [\"`]?%s\b" % c, sql) \
             and re.search(r"AS \(SELECT \* FROM [\"`]?table_\d+[\"`]?\)", sql)
         if extra and len(cols) == len(rec.get("model_names") or []) + len(extra) and all(c in earlier or c in carried or is_helper(c) for c in extra):
-            return "F43-earlier-exclusion-lost" if any(c in earlier for c in extra) else "F46-carried-column-shown-behind-take"
+            return "F43-earlier-exclusion-lost" if any(c in earlier for c in extra) else "F49-carried-column-shown-behind-take"
     if ("group_take" in kinds or "group_win" in kinds) and not rec["program"].meta.get("final_select", True) and re.search(r"SELECT (DISTINCT ON \([^)]*\) )?\*", sql):
         return "F26-group-keys-first-vs-star"
     return None
